@@ -50,7 +50,7 @@ pub fn main(a: &Args) -> i32 {
     let workers = a.u64("workers", 2) as usize;
     let connect = a.u64("connect", 1) == 1;
     let modes = ["idle-handles", "drop-handles-then-runtime", "gate:shut.closed", "gate:shut.aborted", "gate:h.closing",
-                 "after-shutdown", "random", "shutdown-blocking-handler"];
+                 "after-shutdown", "random", "shutdown-blocking-handler", "shutdown-slow-drop", "shutdown-held-peer", "shutdown-inflight-call"];
     let mut results: Vec<Value> = Vec::new();
     let mut hung = false;
     for t in 0..trials {
@@ -140,6 +140,75 @@ pub fn main(a: &Args) -> i32 {
                 if leaked != 0 {
                     leaks.push(format!("{leaked} clone(s) of the user's service still alive when shutdown() returned (a handler was mid-poll)"));
                 }
+                keep.push(a_net);
+                keep.push(b_net);
+            }
+            "shutdown-slow-drop" => {
+                // every clone of the service is slow to drop; shutdown() on one worker while the
+                // manager winds down on another: when it returns, all clones must be gone, the
+                // network closed and its address free
+                let live = a_live.clone().unwrap();
+                let addr = a_net.local_addr();
+                crate::sim::SLOW_DROP_MS.store(120, std::sync::atomic::Ordering::SeqCst);
+                let (leaked, closed, rebind) = rt.block_on(async {
+                    // awaited on the thread that drives block_on, not on a worker: a wake-up from the
+                    // manager's worker then does not queue behind that worker's own (slow) drops
+                    let h = tokio::time::timeout(Duration::from_secs(20), a_net.shutdown());
+                    let before = live.load(std::sync::atomic::Ordering::SeqCst);
+                    let t0 = Instant::now();
+                    let _ = h.await;
+                    let leaked = live.load(std::sync::atomic::Ordering::SeqCst);
+                    if std::env::var_os("VERIF_ECHO").is_some() {
+                        eprintln!("slow-drop: live before {before}, after {leaked}, shutdown took {:?}", t0.elapsed());
+                    }
+                    (leaked, a_net.is_closed(), std::net::UdpSocket::bind(addr).is_ok())
+                });
+                crate::sim::SLOW_DROP_MS.store(0, std::sync::atomic::Ordering::SeqCst);
+                if leaked != 0 {
+                    leaks.push(format!("{leaked} clone(s) of the user's service still alive when shutdown() returned (slow drop)"));
+                }
+                if !closed {
+                    leaks.push("network not closed when shutdown() returned".into());
+                }
+                if !rebind {
+                    leaks.push("address not free when shutdown() returned".into());
+                }
+                keep.push(a_net);
+                keep.push(b_net);
+            }
+            "shutdown-held-peer" | "shutdown-inflight-call" => {
+                // the application still holds a Peer handle (held-peer), or has a call in flight
+                // through the network handle (inflight-call), when the network is shut down: the
+                // address must be free all the same, and the call must fail rather than hang
+                let addr = a_net.local_addr();
+                let peer = if mode == "shutdown-held-peer" { a_net.peer(b_net.peer_id()) } else { None };
+                let (rebind, call) = rt.block_on(async {
+                    let fut = if mode == "shutdown-inflight-call" {
+                        let a2 = a_net.clone();
+                        let to = b_net.peer_id();
+                        Some(tokio::spawn(async move {
+                            a2.rpc(to, Request::new(Bytes::from_static(b"x")).with_header("delay-ms", "5000").with_header("nonce", "0")).await.is_ok()
+                        }))
+                    } else {
+                        None
+                    };
+                    tokio::time::sleep(Duration::from_millis(50)).await;
+                    let _ = tokio::time::timeout(Duration::from_secs(20), a_net.shutdown()).await;
+                    let rebind = std::net::UdpSocket::bind(addr).is_ok();
+                    let call = match fut {
+                        Some(f) => Some(tokio::time::timeout(Duration::from_secs(3), f).await.is_ok()),
+                        None => None,
+                    };
+                    (rebind, call)
+                });
+                if !rebind && (peer.is_some() || mode == "shutdown-inflight-call") {
+                    leaks.push(format!("address not free when shutdown() returned ({})",
+                                       if peer.is_some() { "a Peer handle was still held" } else { "a call was in flight" }));
+                }
+                if call == Some(false) {
+                    leaks.push("a call in flight at shutdown was still pending 3 s after shutdown() returned".into());
+                }
+                drop(peer);
                 keep.push(a_net);
                 keep.push(b_net);
             }
